@@ -24,8 +24,10 @@ Section KnHeapP.
   Proof.
     destruct op; cbn [kh_view]; intros E; inversion E; subst; cbn [kh_step kh_view];
       try (destruct (kstep o _) as [o1 r]; reflexivity).
-    destruct (kstep o (OTransform (h aK))) as [o1 r].
-    destruct r; try reflexivity. destruct (o_attrs T o); reflexivity.
+    - destruct (kstep o (OTransform (h aK))) as [o1 r].
+      destruct r; try reflexivity. destruct (o_attrs T o); reflexivity.
+    - destruct (kstep o (OFitTransform (h aK) (hrd T h aw))) as [o1 r].
+      destruct r; try reflexivity. destruct (o_attrs T o1); reflexivity.
   Qed.
 
   Lemma kh_step_write o h a v : hstep o h (HWrite a v) = (o, hupd T h a v, None).
@@ -88,6 +90,12 @@ Section KnHeapP.
       assert (E2 : hrd T h1 aw = hrd T h2 aw).
       { apply (agree_hrd a); [exact A|]. intros x Hx E; subst; apply N; right; left; reflexivity. }
       cbn [kh_step kh_view]. rewrite E1, E2. destruct (kstep o _); auto.
+    - assert (E1 : h1 aK = h2 aK) by (apply A; intros E; apply N; left; exact E).
+      assert (E2 : hrd T h1 aw = hrd T h2 aw).
+      { apply (agree_hrd a); [exact A|]. intros x Hx E; subst; apply N; right; left; reflexivity. }
+      cbn [kh_step]. rewrite E1, E2. destruct (kstep o _) as [o1 r].
+      destruct r; auto. destruct (o_attrs T o1); auto.
+      repeat split. apply agree_hupd; exact A.
   Qed.
 
   Lemma kh_run_agree a ops : forall o h1 h2,
@@ -126,5 +134,27 @@ Section KnHeapP.
       destruct (hrun o1 h1 (pre ++ HWrite a v :: tail)) as [[o2 g2] rs2].
       destruct (hrun o1 h1 (pre ++ tail)) as [[o3 g3] rs3].
       destruct IH; subst; auto.
+  Qed.
+  (* fit_transform(K, w, copy=False) = fit(K, w) followed by transform(K, copy=False): same object,
+     same returned value — the fit-then-transform of the values the array held when the call was
+     made —, and the same contents of the caller's array afterwards *)
+  Lemma kh_fit_transform_inplace o h aK aw :
+    kn_w_ok T nrows (h aK) (hrd T h aw) = true ->
+    let '(o2, h2, rs) := hrun o h [HFit aK aw; HTransformIP aK] in
+    hrun o h [HFitTransformIP aK aw] = (o2, h2, [last rs RDone]).
+  Proof.
+    intros Hw. cbn [kh_run kh_step kh_view kn_step].
+    unfold kn_do_fit at 1 2. rewrite Hw.
+    destruct (fit_num _ _ (h aK) _) as [[r a] s]. cbn [o_attrs o_center].
+    match goal with |- context [kn_do_transform ?x1 ?x2 ?x3 ?x4 ?x5 ?x6] =>
+      destruct (kn_do_transform x1 x2 x3 x4 x5 x6) as [o3 r3] eqn:E end.
+    assert (E3 : o3 = fst (kn_do_transform T nrows ncols tr_num
+                   (KnObj (o_center T o) (o_trace T o) (Some (ncols (h aK)))
+                          (Some (KnAttrs (match hrd T h aw with Some w0 => Some (norm_w w0) | None => None end) r a s)))
+                   (h aK))) by (rewrite E; reflexivity).
+    destruct r3; cbn; try reflexivity.
+    (* the object after transform is the object after fit: its attributes are the fitted ones *)
+    unfold kn_do_transform in E3. cbn [o_attrs o_nfeat] in E3.
+    match type of E3 with context [if ?b then _ else _] => destruct b end; cbn in E3; subst o3; reflexivity.
   Qed.
 End KnHeapP.
